@@ -36,7 +36,7 @@ pub fn run(data: &[u8], ctx: &mut Ctx) -> Outcome {
     let subject_bytes = e.subject().to_cbor_data();
     // a generated envelope may already carry 'hasRecipient' assertions with arbitrary objects: then
     // recipients() legitimately reports an error; keep such inputs for the no-panic part only
-    let bogus_recipient = m.assertions().iter().any(|a| matches!(a.subject(), M::Assertion(p, _) if **p == M::Known(5)));
+    let bogus_recipient = m.assertions().iter().any(|a| matches!(a.subject(), M::Assertion(p, _) if p.digest() == M::Known(5).digest()));
 
     let n = 1 + src.weighted(&[35, 30, 20, 10, 5]);
     let listed: Vec<usize> = (0..n).map(|_| src.below(pool.enc.len())).collect();
@@ -119,6 +119,25 @@ pub fn run(data: &[u8], ctx: &mut Ctx) -> Outcome {
     if bogus_recipient {
         ctx.class("base-has-bogus-hasRecipient");
         return Outcome::Pass;
+    }
+
+    // --- an envelope that still carries a (valid) 'hasRecipient' assertion from an EARLIER encryption to
+    // the same recipient — what decrypt_subject_to_recipient hands back keeps those assertions — is
+    // encrypted to that recipient again: the listed recipient must still be able to open it
+    if subject_encryptable && src.chance(64) {
+        let r = listed[0];
+        let stale_key = SymmetricKey::from_data_ref(src.bytes(32)).unwrap();
+        let n_stale = 1 + src.below(2);
+        let mut with_stale = e.clone();
+        for _ in 0..n_stale {
+            with_stale = nopanic!(ctx, with_stale.add_recipient(&pool.enc[r].public, &stale_key), "stale", "C10/stale-recipient");
+        }
+        let again = nopanic!(ctx, with_stale.encrypt_subject_to_recipient(&pool.enc[r].public), "stale", "C10/stale-recipient");
+        let again = tryp!(ctx, again.map_err(|x| x.to_string()), "stale", "C10/stale-recipient");
+        let d = nopanic!(ctx, again.decrypt_subject_to_recipient(&pool.enc[r].private), "stale", "C10/stale-recipient");
+        let d = tryp!(ctx, d.map_err(|x| format!("a listed recipient cannot open an envelope that also carries {} 'hasRecipient' assertion(s) from an earlier encryption to the same key: {}", n_stale, x)), "stale", "C10/stale-recipient/listed-fails");
+        check!(ctx, d.subject().to_cbor_data() == subject_bytes, "stale", "C10/stale-recipient", "decrypted subject differs from the original subject");
+        ctx.class("stale-hasRecipient");
     }
 
     // --- single-recipient and wrapped forms
